@@ -66,7 +66,8 @@ RULE = ('structural: all 1330 depth<=2 expressions over a 14-leaf alphabet (samp
         'table (None / negative / zero / positive, empty / non-empty); non-trivial = an expression with at least one operator whose translation was compared; '
         'distinct = distinct (provider, mode, query text); join and collection queries: hand-made shapes + seeded random queries (1-2 atoms, inner conditions of depth <= 3) '
         'on 4 providers and on real SQLite over fixed object graphs (groups with 0..4 members, None among member values and among g\'s own); len / formula / aggregate / GROUP BY / ORDER BY queries: hand-made shapes + 20-30 seeded random '
-        'queries each in the quick tier (300-400 in the thorough tier) on 4 providers and on real SQLite over the fixed table')
+        'queries each in the quick tier (300-400 in the thorough tier) on 4 providers and on real SQLite over the fixed table; search also: six query texts with external string '
+        'slice / index bounds each executed six times on one Database with different values (warm translator cache) against Python\'s evaluation')
 
 QUICK = dict(order_queries=25, order_search=150, group_queries=25, group_search=150, form_queries=25, form_search=150, len_queries=20, len_search=120, aggr_queries=30, aggr_search=200, coll_queries=30, coll_search=150, join_queries=40, join_search=150, like_random=60, n_random=240, n_enum=300, n_depth3=60, sem_random=90, sem_enum=110, sem_depth3=30, rows=6, search_random=260, search_ext=160)
 THOROUGH = dict(order_queries=300, order_search=3000, group_queries=300, group_search=3000, form_queries=300, form_search=3000, len_queries=300, len_search=3000, aggr_queries=400, aggr_search=4000, coll_queries=400, coll_search=3000, join_queries=500, join_search=3000, like_random=600, n_random=2500, n_enum=1330, n_depth3=500, sem_random=600, sem_enum=700, sem_depth3=200, rows=14, search_random=4000, search_ext=3000)
@@ -273,6 +274,8 @@ def search(ctx, deep):
     evals += g_evals; failures += g_fail; nontriv |= g_nontriv; dist['group_by'] = g_dist
     o_evals, o_fail, o_nontriv, o_dist = O.order_search(ctx, O.gen_queries(ctx, z.get('order_search', 150)), areal, H.RealDb)
     evals += o_evals; failures += o_fail; nontriv |= o_nontriv; dist['order_by'] = o_dist
+    x_evals, x_fail = H.reexec_search(ctx)
+    evals += x_evals; failures += x_fail; dist['reexecution'] = {'forms': len(H.REEXEC_FORMS), 'executions_each': len(H.REEXEC_VALUES), 'failing': len(x_fail)}
     dist['inputs'] = {'corpus': len([1 for i in inputs if i[2] == 'corpus']), 'total': len(inputs)}
     samples = [{'query': 'select(p for p in P if %s)' % L.src(inputs[len(inputs) // 2][0]), 'params': inputs[len(inputs) // 2][1]}]
     return Search(evaluations=evals, failures=failures, nontrivial=len(nontriv), samples=samples, distribution=dist, exhaustive=False)
@@ -286,6 +289,7 @@ def replay(ctx, data):
     if 'aggr' in data: return A.replay_aggr(data['aggr'], H.RealDb)
     if 'group' in data: return A.replay_group(data['group'], H.RealDb)
     if 'order' in data: return O.replay_order(data['order'], H.RealDb)
+    if 'reexec' in data: return H.replay_reexec(data['reexec'])
     return H.replay_sqlite(data)
 
 
